@@ -243,83 +243,111 @@ def insert (d : Nat) (t : BTree) (k : Key) (rid : RowId) : Except Err BTree :=
 
 def underfull (d : Nat) (n : Node) : Bool := n.size < d / 2
 
-/-- `try_borrow_leaf` then `merge_leaf`; the flag says whether a merge happened (the parent
-    lost a child) -/
-def rebalanceLeaf (d : Nat) (left : List (Node × Key)) (es : List Entry) (right : List (Key × Node)) :
-    Except Err (Node × Bool) :=
-  let tryRight : Unit → Except Err (Option (Node × Bool)) := fun _ =>
-    match right with
-    | (_, .leaf res) :: right' =>
-      if d / 2 < res.length then
-        match res with
-        | b :: f :: rest =>
-          .ok (some (closeNode left (.leaf (es ++ [b])) ((f.1, .leaf (f :: rest)) :: right'), false))
-        | _ => .error .panic
-      else .ok none
-    | (_, .internal _ _) :: _ => .error .io
-    | [] => .ok none
-  let merge : Unit → Except Err (Node × Bool) := fun _ =>
-    match left with
-    | (.leaf les, _) :: left' => .ok (closeNode left' (.leaf (les ++ es)) right, true)
-    | (.internal _ _, _) :: _ => .error .io
-    | [] =>
-      match right with
-      | (_, .leaf res) :: right' => .ok (closeNode [] (.leaf (es ++ res)) right', true)
-      | (_, .internal _ _) :: _ => .error .io
-      | [] => .error .panic
-  let rest : Unit → Except Err (Node × Bool) := fun _ =>
-    match tryRight () with
-    | .error e => .error e
-    | .ok (some x) => .ok x
-    | .ok none => merge ()
+/-- `try_borrow_leaf`, left sibling first: `none` = no left sibling, or it has no spare entry -/
+def leafBorrowLeft (d : Nat) (left : List (Node × Key)) (es : List Entry) (right : List (Key × Node)) :
+    Except Err (Option Node) :=
   match left with
   | (.leaf les, _) :: left' =>
     if d / 2 < les.length then
       match les.getLast? with
-      | some b => .ok (closeNode ((.leaf les.dropLast, b.1) :: left') (.leaf (b :: es)) right, false)
+      | some b => .ok (some (closeNode ((.leaf les.dropLast, b.1) :: left') (.leaf (b :: es)) right))
       | none => .error .panic
-    else rest ()
+    else .ok none
   | (.internal _ _, _) :: _ => .error .io
-  | [] => rest ()
+  | [] => .ok none
 
-/-- `try_borrow_internal` then `merge_internal` for the underfull internal child `(n0, nr)` -/
-def rebalanceInternal (d : Nat) (left : List (Node × Key)) (n0 : Node) (nr : List (Key × Node))
-    (right : List (Key × Node)) : Except Err Node :=
-  let tryRight : Unit → Except Err (Option Node) := fun _ =>
+/-- `try_borrow_leaf`, right sibling -/
+def leafBorrowRight (d : Nat) (left : List (Node × Key)) (es : List Entry) (right : List (Key × Node)) :
+    Except Err (Option Node) :=
+  match right with
+  | (_, .leaf res) :: right' =>
+    if d / 2 < res.length then
+      match res with
+      | b :: f :: rest =>
+        .ok (some (closeNode left (.leaf (es ++ [b])) ((f.1, .leaf (f :: rest)) :: right')))
+      | _ => .error .panic
+    else .ok none
+  | (_, .internal _ _) :: _ => .error .io
+  | [] => .ok none
+
+/-- `merge_leaf`: into the left sibling if there is one, else the right sibling into the leaf -/
+def leafMerge (left : List (Node × Key)) (es : List Entry) (right : List (Key × Node)) : Except Err Node :=
+  match left with
+  | (.leaf les, _) :: left' => .ok (closeNode left' (.leaf (les ++ es)) right)
+  | (.internal _ _, _) :: _ => .error .io
+  | [] =>
     match right with
-    | (rk, .internal r0 rr) :: right' =>
-      if d / 2 < rr.length + 1 then
-        match rr with
-        | (bk, r1) :: rr' =>
-          .ok (some (closeNode left (.internal n0 (nr ++ [(rk, r0)])) ((bk, .internal r1 rr') :: right')))
-        | [] => .error .panic
-      else .ok none
-    | (_, .leaf _) :: _ => .error .io
-    | [] => .ok none
-  let merge : Unit → Except Err Node := fun _ =>
-    match left with
-    | (.internal l0 lr, lk) :: left' => .ok (closeNode left' (.internal l0 (lr ++ (lk, n0) :: nr)) right)
-    | (.leaf _, _) :: _ => .error .io
-    | [] =>
-      match right with
-      | (rk, .internal r0 rr) :: right' => .ok (closeNode [] (.internal n0 (nr ++ (rk, r0) :: rr)) right')
-      | (_, .leaf _) :: _ => .error .io
-      | [] => .error .panic
-  let rest : Unit → Except Err Node := fun _ =>
-    match tryRight () with
+    | (_, .leaf res) :: right' => .ok (closeNode [] (.leaf (es ++ res)) right')
+    | (_, .internal _ _) :: _ => .error .io
+    | [] => .error .panic
+
+/-- `rebalance_leaf`: borrow (left, then right), else merge; the flag says whether a merge
+    happened (the parent lost a child) -/
+def rebalanceLeaf (d : Nat) (left : List (Node × Key)) (es : List Entry) (right : List (Key × Node)) :
+    Except Err (Node × Bool) :=
+  match leafBorrowLeft d left es right with
+  | .error e => .error e
+  | .ok (some n) => .ok (n, false)
+  | .ok none =>
+    match leafBorrowRight d left es right with
     | .error e => .error e
-    | .ok (some x) => .ok x
-    | .ok none => merge ()
+    | .ok (some n) => .ok (n, false)
+    | .ok none =>
+      match leafMerge left es right with
+      | .error e => .error e
+      | .ok n => .ok (n, true)
+
+/-- `try_borrow_internal`, left sibling, for the underfull internal child `(n0, nr)` -/
+def intBorrowLeft (d : Nat) (left : List (Node × Key)) (n0 : Node) (nr : List (Key × Node))
+    (right : List (Key × Node)) : Except Err (Option Node) :=
   match left with
   | (.internal l0 lr, lk) :: left' =>
     if d / 2 < lr.length + 1 then
       match lr.getLast? with
       | some (bk, bc) =>
-        .ok (closeNode ((.internal l0 lr.dropLast, bk) :: left') (.internal bc ((lk, n0) :: nr)) right)
+        .ok (some (closeNode ((.internal l0 lr.dropLast, bk) :: left') (.internal bc ((lk, n0) :: nr)) right))
       | none => .error .panic
-    else rest ()
+    else .ok none
   | (.leaf _, _) :: _ => .error .io
-  | [] => rest ()
+  | [] => .ok none
+
+/-- `try_borrow_internal`, right sibling -/
+def intBorrowRight (d : Nat) (left : List (Node × Key)) (n0 : Node) (nr : List (Key × Node))
+    (right : List (Key × Node)) : Except Err (Option Node) :=
+  match right with
+  | (rk, .internal r0 rr) :: right' =>
+    if d / 2 < rr.length + 1 then
+      match rr with
+      | (bk, r1) :: rr' =>
+        .ok (some (closeNode left (.internal n0 (nr ++ [(rk, r0)])) ((bk, .internal r1 rr') :: right')))
+      | [] => .error .panic
+    else .ok none
+  | (_, .leaf _) :: _ => .error .io
+  | [] => .ok none
+
+/-- `merge_internal`: the parent's separator comes down between the two halves -/
+def intMerge (left : List (Node × Key)) (n0 : Node) (nr : List (Key × Node)) (right : List (Key × Node)) :
+    Except Err Node :=
+  match left with
+  | (.internal l0 lr, lk) :: left' => .ok (closeNode left' (.internal l0 (lr ++ (lk, n0) :: nr)) right)
+  | (.leaf _, _) :: _ => .error .io
+  | [] =>
+    match right with
+    | (rk, .internal r0 rr) :: right' => .ok (closeNode [] (.internal n0 (nr ++ (rk, r0) :: rr)) right')
+    | (_, .leaf _) :: _ => .error .io
+    | [] => .error .panic
+
+/-- `try_borrow_internal` then `merge_internal` -/
+def rebalanceInternal (d : Nat) (left : List (Node × Key)) (n0 : Node) (nr : List (Key × Node))
+    (right : List (Key × Node)) : Except Err Node :=
+  match intBorrowLeft d left n0 nr right with
+  | .error e => .error e
+  | .ok (some n) => .ok n
+  | .ok none =>
+    match intBorrowRight d left n0 nr right with
+    | .error e => .error e
+    | .ok (some n) => .ok n
+    | .ok none => intMerge left n0 nr right
 
 inductive DelRes where
   | notFound
